@@ -7,6 +7,7 @@ import (
 	"os"
 	"path/filepath"
 	"strings"
+	"syscall"
 	"time"
 
 	"github.com/benbjohnson/litestream"
@@ -99,8 +100,14 @@ func runC11(t testingT, p *Program) *Result {
 	st := &c11state{}
 	return RunHIST(t, p, func(e *Env) {
 		seq := 0
+		mark := os.Getenv("VERIF_MARK") != ""
 		verifhook.FSHook = func(op, p1, p2 string) {
 			seq++
+			if mark {
+				// syscall cross-check (driver stage "strace"): make the announcement
+				// visible in the system-call trace, right before the real operation
+				_ = syscall.Access(fmt.Sprintf("/verif-mark|%d|%d|%s|%s|%s", p.Seed, seq, op, p1, p2), 0)
+			}
 			ev := fsEvent{Seq: seq, Op: op, P1: p1, P2: p2, OpIdx: e.curOp, Gor: goid() != e.mainGID}
 			if op == "fsync" || op == "rename" {
 				ev.Fp = fingerprint(p1)
